@@ -11,6 +11,7 @@ use crate::ak::*;
 use crate::engine::*;
 use serde_json::json;
 use std::collections::{BTreeMap, HashSet};
+use std::rc::Rc;
 use std::time::Duration;
 use vcore::evid::{guarded, Run, Tier, Violation};
 use vcore::par::par_indices;
@@ -350,6 +351,7 @@ pub fn run(tier: Tier, replay: Option<String>) -> i32 {
     }
     let mut run = Run::new("C01", tier);
     run_strata(&mut run, tier, Mode::C01);
+    recursion_family(&mut run);
     run.set("rule", "every function body up to the stratum's size bound (13 strata closed under typing: arithmetic/if/let, connectives/abort/trace, when over ADTs/records/tuples/options/lists/trees, recursion and higher-order helpers, expect patterns, Data casts, lambdas/captures/pipes, structural equality) x the full cartesian product of the parameters' value universes; distinct_nontrivial = functions with at least two distinct results over their inputs");
     run.assume("the reference interpreter h_lang::ak (strict, first-match when, floor division/modulo, short-circuit connectives, Data casts per the documented encoding) is a faithful reading of the language reference; unused lets are not evaluated (documented)");
     run.assume("the harness printer emits fully bracketed source, so precedence cannot change the meaning of the printed text");
@@ -447,4 +449,162 @@ fn replay_c06(path: &str) -> i32 {
     }
     println!("could not locate the function of the replay file");
     2
+}
+
+// ---------------------------------------------------------------------------------------
+// Recursion shapes: the strata call a fixed library of recursive helpers, whose self-calls
+// all pass their parameters "in place".  How the compiler lowers a recursive definition
+// depends on exactly that (parameters that every self-call passes unchanged are hoisted out
+// of the recursion), so every shape of self-call gets its own definition here:
+//   rec(a, b, n) = if n <= 0 { BASE } else { rec(ARG1, ARG2, n - 1) }
+// for every ARG1, ARG2 in {a, b, a + b, b - a, a + 1, 0} and BASE in {a, b, a - b}, and a
+// list-driven variant  walk(xs, p, q) = when xs is { [] -> BASE; [x, ..rest] -> walk(rest, A1, A2) }.
+
+fn recursion_helpers() -> Vec<Rc<FnDef>> {
+    use std::rc::Rc;
+    let v = |x: &str| Expr::Var(x.into());
+    let int = |i: i64| Expr::Int(num_bigint::BigInt::from(i));
+    let bin = |op: Op, a: Expr, b: Expr| Expr::Bin(op, Rc::new(a), Rc::new(b));
+    let args = |p: &str, q: &str| -> Vec<Expr> { vec![v(p), v(q), bin(Op::Add, v(p), v(q)), bin(Op::Sub, v(q), v(p)), bin(Op::Add, v(p), int(1)), int(0)] };
+    let mut out = vec![];
+    let bases = |p: &str, q: &str| vec![v(p), v(q), bin(Op::Sub, v(p), v(q))];
+    let mut k = 0;
+    for a1 in args("a", "b") {
+        for a2 in args("a", "b") {
+            for base in bases("a", "b") {
+                let name = format!("rec{k}");
+                k += 1;
+                let body = Expr::If(
+                    Rc::new(bin(Op::Le, v("n"), int(0))),
+                    Rc::new(base.clone()),
+                    Rc::new(Expr::Call(Rc::new(v(&name)), vec![a1.clone(), a2.clone(), bin(Op::Sub, v("n"), int(1))])),
+                );
+                out.push(Rc::new(FnDef { name, params: vec![("a".into(), Ty::Int), ("b".into(), Ty::Int), ("n".into(), Ty::Int)], ret: Ty::Int, body: Rc::new(body), src: None }));
+            }
+        }
+    }
+    let li = Ty::List(Rc::new(Ty::Int));
+    let wargs = |p: &str, q: &str| -> Vec<Expr> { vec![v(p), v(q), bin(Op::Add, v(p), v("x")), bin(Op::Add, v(q), v("x")), v("x")] };
+    let mut k = 0;
+    for a1 in wargs("p", "q") {
+        for a2 in wargs("p", "q") {
+            for base in bases("p", "q") {
+                let name = format!("walk{k}");
+                k += 1;
+                let body = Expr::When(
+                    Rc::new(v("xs")),
+                    vec![
+                        (Pat::List(vec![], None), base.clone()),
+                        (Pat::List(vec![Pat::Var("x".into())], Some(Some("rest".into()))), Expr::Call(Rc::new(v(&name)), vec![v("rest"), a1.clone(), a2.clone()])),
+                    ],
+                );
+                out.push(Rc::new(FnDef { name, params: vec![("xs".into(), li.clone()), ("p".into(), Ty::Int), ("q".into(), Ty::Int)], ret: Ty::Int, body: Rc::new(body), src: None }));
+            }
+        }
+    }
+    out
+}
+
+pub fn recursion_family(run: &mut Run) {
+    use std::rc::Rc;
+    let helpers = recursion_helpers();
+    let n_helpers = helpers.len();
+    // one wrapper per (helper, depth): f(a, b) = rec_k(a, b, depth) / f(xs, a) = walk_k(xs, a, 1 - a)
+    let n_chunks = helpers.chunks(12).count();
+    drop(helpers);
+    let out = par_indices(
+        n_chunks as u64,
+        1,
+        None,
+        // (Rc-based definitions: every worker builds its own copy of the same list)
+        |_| (Worker::new(), Local::default(), recursion_helpers()),
+        |(w, l, all), ci| {
+            let hs: Vec<Rc<FnDef>> = all.chunks(12).nth(ci as usize).map(|c| c.to_vec()).unwrap_or_default();
+            let hs = &hs;
+            let mut src = String::new();
+            let mut wrappers: Vec<(Stratum, Expr)> = vec![];
+            for h in hs {
+                src.push_str(&show_fn(h));
+                src.push('\n');
+                let v = |x: &str| Expr::Var(x.into());
+                let int = |i: i64| Expr::Int(num_bigint::BigInt::from(i));
+                if h.name.starts_with("rec") {
+                    for depth in [0i64, 1, 2, 3] {
+                        let st = Stratum { name: "recursion-shapes", params: vec![("a".into(), Ty::Int), ("b".into(), Ty::Int)], ret: Ty::Int, prods: Default::default(), max_size: 0 };
+                        wrappers.push((st, Expr::Call(Rc::new(v(&h.name)), vec![v("a"), v("b"), int(depth)])));
+                    }
+                } else {
+                    let st = Stratum { name: "recursion-shapes", params: vec![("xs".into(), Ty::List(Rc::new(Ty::Int))), ("a".into(), Ty::Int)], ret: Ty::Int, prods: Default::default(), max_size: 0 };
+                    wrappers.push((st, Expr::Call(Rc::new(v(&h.name)), vec![v("xs"), v("a"), Expr::Bin(Op::Sub, Rc::new(int(1)), Rc::new(v("a")))])));
+                }
+            }
+            let mut fn_srcs = vec![src];
+            for (k, (st, body)) in wrappers.iter().enumerate() {
+                fn_srcs.push(function_source(&format!("f{k}"), st, body));
+            }
+            let (proj, fns) = match guarded(|| w.check_batch(&fn_srcs, silent())) {
+                Ok(Ok(x)) => x,
+                Ok(Err(e)) => {
+                    l.machinery.push(format!("recursion family rejected by the type checker: {:?}", e));
+                    return;
+                }
+                Err(p) => {
+                    l.violations.push(Violation { signature: "panic|type-checker|recursion-shapes".into(), what: format!("type-checking panicked: {p}"), case: json!({"engine":"c01-rec"}) });
+                    return;
+                }
+            };
+            // the interpreter needs the helpers of this chunk
+            let mut globals = w.globals.clone();
+            for h in hs {
+                globals.insert(h.name.clone(), h.clone());
+            }
+            let w2 = Worker { base: w.base.clone(), prelude_src: String::new(), globals, bodies: Default::default() };
+            for (k, f) in fns.iter().enumerate() {
+                let Some((st, body)) = wrappers.get(k) else { continue };
+                l.functions += 1;
+                let compiled = guarded(|| {
+                    let _ = aiken_lang::verif_hooks::drain_pre_optimisation();
+                    let mut g = proj.generator(silent());
+                    let p = g.generate_raw(&f.body, &f.arguments, crate::driver::MODULE_NAME);
+                    (p, aiken_lang::verif_hooks::drain_pre_optimisation().pop())
+                });
+                match compiled {
+                    Err(p) => l.violations.push(Violation { signature: format!("panic|compiler|{}|recursion-shapes", vcore::evid::panic_site_file(&p)), what: format!("compiling panicked: {p}"), case: json!({"engine":"c01-rec"}) }),
+                    Ok((program, _s0)) => {
+                        let before = l.violations.len();
+                        check_function(st, usize::MAX, k, body, &program, None, &w2, Mode::C01, l);
+                        // make the report self-contained: include the helper's definition
+                        for v in l.violations.iter_mut().skip(before) {
+                            let helper = hs.iter().find(|h| show(body).contains(&format!("{}(", h.name))).map(|h| show_fn(h)).unwrap_or_default();
+                            v.what = format!("{}\nwhere\n{helper}", v.what);
+                            v.signature = v.signature.replace("|call", "|call-to-a-recursive-function-whose-self-call-permutes-or-rewrites-its-parameters");
+                            v.case = json!({"engine":"c01-rec","helper":helper,"wrapper":show(body)});
+                        }
+                    }
+                }
+            }
+        },
+        |(_, l, _)| l,
+    );
+    let mut functions = 0;
+    let mut evaluations = 0;
+    for l in out.results {
+        functions += l.functions;
+        evaluations += l.evaluations;
+        run.violations_extend(l.violations);
+        for m in l.machinery.into_iter().take(2) {
+            run.machinery_error(m);
+        }
+    }
+    run.set("recursion_shape_definitions", n_helpers as u64);
+    run.set("recursion_shape_functions", functions);
+    run.set("recursion_shape_evaluations", evaluations);
+    run.add("functions_compiled", functions);
+    run.add("evaluations", evaluations);
+    run.add("states", functions);
+    run.add("transitions", evaluations);
+    run.add("traces_validated_against_impl", evaluations);
+    if functions < 100 {
+        run.machinery_error("vacuous: the recursion-shapes family did not compile");
+    }
 }
